@@ -88,6 +88,21 @@ def unhx(h):
     return b"" if h == "-" else bytes.fromhex(h)
 
 
+_seen_cls = {}
+
+
+def viol(ck, cls, key, what, rep):
+    """report the first (shortest: inputs are enumerated by length) witness of a deviation class; count the others.
+    A witness suppressed as known finding does not use up the class."""
+    if cls in _seen_cls:
+        _seen_cls[cls] += 1
+        return False
+    if ck.violation(key, what, rep):
+        _seen_cls[cls] = 0
+        return True
+    return False
+
+
 # ---- tools -------------------------------------------------------------------------------------------
 def run_tool(exe, lines, args=()):
     p = subprocess.run([exe] + list(args), input=("\n".join(lines) + "\n").encode(), capture_output=True, timeout=1200)
@@ -174,12 +189,12 @@ def leg_texts(ck, T, texts, stats):
             i_n = int(f[3]) if len(f) == 4 and f[0] == "T" else -1
             # specification
             if (sp is not None) != i_closed or (sp is not None and i_lit != q + sp[0] + q):
-                ck.violation("scanner delimits %s literal wrongly: %r" % (kind, q + t),
+                viol(ck, "delimit-" + kind, "scanner delimits %s literal wrongly: %r" % (kind, q + t),
                              "NextToken on %r gives %s, the literal should %s" % (q + t, il, "be %r" % (q + sp[0] + q) if sp else "be unterminated"),
                              dict(source=q + t, source_hex=hx(q + t), implementation=il, expected_literal=(q + sp[0] + q) if sp else None, how="litx: T <hex>"))
                 continue
             if sp is not None and kind == "text" and (sp[2] > 0) != (i_n > 0):
-                ck.violation("scanner escape validation wrong: %r" % (q + t),
+                viol(ck, "scan-escape", "scanner escape validation wrong: %r" % (q + t),
                              "NextToken on %r reported %d diagnostics, body has %d unknown escapes" % (q + t, i_n, sp[2]),
                              dict(source=q + t, source_hex=hx(q + t), implementation=il, unknown_escapes=sp[2], how="litx: T <hex>"))
                 continue
@@ -187,7 +202,7 @@ def leg_texts(ck, T, texts, stats):
                 d = spec_denote(sp[0], q)
                 ok = d is not None and len(d) == 1
                 if ok != (i_n == 0):
-                    ck.violation("scanner char validation wrong: %r" % (q + t),
+                    viol(ck, "scan-char", "scanner char validation wrong: %r" % (q + t),
                                  "NextToken on %r reported %d diagnostics, the body %s exactly one character" % (q + t, i_n, "denotes" if ok else "does not denote"),
                                  dict(source=q + t, source_hex=hx(q + t), implementation=il, how="litx: T <hex>"))
                     continue
@@ -215,7 +230,7 @@ def leg_texts(ck, T, texts, stats):
             src = mkdecl(t)
             rep = dict(source=src, source_hex=hx(src), implementation=il, how="litx: P <hex>  (parser.Parse, items = initial values)")
             if pr is None:
-                ck.violation("parser fails on %s literal %r" % (kind, src), "parser.Parse: %s" % il, rep)
+                viol(ck, "parse-fail-" + kind, "parser fails on %s literal %r" % (kind, src), "parser.Parse: %s" % il, rep)
                 continue
             n, codes, items = pr
             if d is not None:
@@ -223,14 +238,16 @@ def leg_texts(ck, T, texts, stats):
                 stats["accepted_" + kind] += 1
                 if n != 0 or items != [want]:
                     rep["expected"] = want
-                    ck.violation("%s literal %r evaluates wrongly" % (kind, q + t + q),
-                                 "%r: parser gives %s with %d diagnostics, written value is %s" % (src, items, n, want), rep)
+                    if viol(ck, "value-" + kind, "%s literal %r evaluates wrongly" % (kind, q + t + q),
+                                    "%r: parser gives %s with %d diagnostics, written value is %s" % (src, items, n, want), rep):
+                        persist("text", t)
                     continue
             else:
                 stats["rejected_" + kind] += 1
                 if n == 0 or T.MAL not in codes:
-                    ck.violation("%s literal %r with unknown escape/shape accepted without diagnostic" % (kind, q + t + q),
-                                 "%r: diagnostics %s, items %s" % (src, codes, items), rep)
+                    if viol(ck, "accept-" + kind, "%s literal %r with unknown escape/shape accepted without diagnostic" % (kind, q + t + q),
+                                    "%r: diagnostics %s, items %s" % (src, codes, items), rep):
+                        persist("text", t)
                     continue
             # model: value and number of diagnostics (scanner's + first of the parser's)
             if kind == "text":
@@ -279,10 +296,10 @@ def leg_single_chars(ck, T, cps, stats):
             rep = dict(source=src, source_hex=hx(src), codepoint=c, implementation=sl, how="litx: P <hex>")
             if c in special:
                 if p1 is not None and p1[0] == 0:
-                    ck.violation("char literal '%s' (unescaped) accepted" % chr(c), "%r accepted: %s" % (src, sl), rep)
+                    viol(ck, "single-char-accept", "char literal '%s' (unescaped) accepted" % chr(c), "%r accepted: %s" % (src, sl), rep)
                 continue
             if p1 is None or p1[0] != 0 or p1[2] != [want_item(c)]:
-                ck.violation("char literal U+%04X evaluates wrongly" % c, "%r: %s, written value is %d" % (src, sl, c), rep)
+                viol(ck, "single-char-value", "char literal U+%04X evaluates wrongly" % c, "%r: %s, written value is %d" % (src, sl, c), rep)
 
 
 def int_cases(ck):
@@ -332,19 +349,21 @@ def leg_ints(ck, T, stats):
         if ml != ("I %d 0" % v if v < 2**63 else "I 0 1"):
             stats["model_mismatch"].append(("int", s, "-", ml))
 
-    def judge_one(s):
-        src = "Die Zahl z ist %s." % s
-        il = T.impl(["P " + hx(src)])[0]
-        pr = parse_P(il)
-        rep = dict(source=src, source_hex=hx(src), implementation=il, how="litx: P <hex>")
-        if int(s) < 2**63:
-            if pr is None or pr[0] != 0 or pr[2] != ["I:%d" % int(s)]:
-                ck.violation("int literal %s evaluates wrongly" % s, "%r: %s, written value is %d" % (src, il, int(s)), rep)
-        else:
-            if pr is None or pr[0] == 0 or T.MAL not in pr[1]:
-                ck.violation("int literal %s out of range accepted" % s, "%r: %s but %d > 2^63-1" % (src, il, int(s)), rep)
-            elif pr[0] != 1 or pr[2] != ["I:0"]:
-                stats["model_mismatch"].append(("int", s, il, "I 0 1"))
+    def judge(lits1):
+        srcs = ["Die Zahl z ist %s." % s for s in lits1]
+        outs = T.impl(["P " + hx(src) for src in srcs])
+        for s, src, il in zip(lits1, srcs, outs):
+            pr = parse_P(il)
+            rep = dict(source=src, source_hex=hx(src), implementation=il, how="litx: P <hex>")
+            if int(s) < 2**63:
+                if pr is None or pr[0] != 0 or pr[2] != ["I:%d" % int(s)]:
+                    viol(ck, "int-value", "int literal %s evaluates wrongly" % s, "%r: %s, written value is %d" % (src, il, int(s)), rep)
+            else:
+                if pr is None or pr[0] == 0 or T.MAL not in pr[1]:
+                    viol(ck, "int-range", "int literal %s out of range accepted" % s, "%r: %s but %d > 2^63-1" % (src, il, int(s)), rep)
+                elif pr[0] != 1 or pr[2] != ["I:0"]:
+                    stats["model_mismatch"].append(("int", s, il, "I 0 1"))
+    redo = []
     for bt, il in zip(batches, impl):
         pr = parse_P(il)
         if pr is not None and pr[0] == 0 and pr[2] == ["I:%d" % int(s) for s in bt]:
@@ -352,24 +371,24 @@ def leg_ints(ck, T, stats):
                 if len(s) >= 18 or s[0] == "0":
                     ck.nontrivial(("int", s))
             continue
-        for s in bt:
-            judge_one(s)
+        redo += bt
+    judge(redo + rej)
     for s in rej:
-        judge_one(s)
         ck.nontrivial(("int", s))
     stats["ints"] = dict(accepted=len(ok), rejected=len(rej))
     # negated literals: the written value of  -digits  (the sign is an operator applied to the literal)
-    for s, v in (("9223372036854775807", -(2**63 - 1)), ("9223372036854775808", -(2**63)), ("9223372036854775809", None), ("0", 0)):
+    neg = (("9223372036854775807", -(2**63 - 1)), ("9223372036854775808", -(2**63)), ("9223372036854775809", None), ("0", 0))
+    outs = T.impl(["P " + hx("Die Zahl z ist -%s." % s) for s, _ in neg])
+    for (s, v), il in zip(neg, outs):
         src = "Die Zahl z ist -%s." % s
-        il = T.impl(["P " + hx(src)])[0]
         pr = parse_P(il)
         ck.count()
         rep = dict(source=src, source_hex=hx(src), implementation=il, how="litx: P <hex>")
         if v is None:
             if pr is None or pr[0] == 0:
-                ck.violation("int literal -%s out of range accepted" % s, "%r: %s" % (src, il), rep)
+                viol(ck, "negint-range", "int literal -%s out of range accepted" % s, "%r: %s" % (src, il), rep)
         elif pr is None or pr[0] != 0 or pr[2] != ["-I:%d" % -v]:
-            ck.violation("int literal -%s rejected" % s, "%r is within the 64-bit range (value %d) but: %s" % (src, v, il), rep)
+            viol(ck, "negint-reject", "int literal -%s rejected" % s, "%r is within the 64-bit range (value %d) but: %s" % (src, v, il), rep)
 
 
 def float_cases(ck):
@@ -387,9 +406,10 @@ def float_cases(ck):
         rnd.add("".join(rng.choice("0123456789") for _ in range(a)) + "," + "".join(rng.choice("0123456789") for _ in range(bl)))
     hard = set()
     # exact midpoints between adjacent doubles (decimal expansions are finite), and their neighbours
-    nh = 1500 if ck.quick else 20000
-    for _ in range(nh):
-        e = rng.choice([rng.randint(-60, 70), rng.randint(-1074, -1000), rng.randint(-30, 30), rng.randint(900, 1023)])
+    nh = 200 if ck.quick else 3000
+    for k in range(nh):
+        # mostly moderate exponents (literals of <= 60 digits); every 12th an extreme one (up to ~1100 digits)
+        e = rng.choice([rng.randint(-1074, -1000), rng.randint(900, 1023)]) if k % 12 == 0 else rng.choice([rng.randint(-60, 70), rng.randint(-30, 30)])
         m = rng.getrandbits(52) | (1 << 52)
         lo = Fraction(m) * Fraction(2) ** (e - 52)
         hi = Fraction(m + 1) * Fraction(2) ** (e - 52)
@@ -469,35 +489,41 @@ def leg_floats(ck, T, stats):
         batches.append(cur)
     impl = T.impl(["P " + hx("\n".join("Die Kommazahl k%d ist %s." % (i, s) for i, (s, _) in enumerate(bt))) for bt in batches])
 
-    def judge_one(s, w):
-        src = "Die Kommazahl k ist %s." % s
-        il = T.impl(["P " + hx(src)])[0]
-        pr = parse_P(il)
-        short = s if len(s) < 60 else s[:25] + "...(%d digits)" % (len(s) - 1)
-        rep = dict(source=src, source_hex=hx(src), implementation=il, how="litx: P <hex>")
-        if w is not None:
-            if pr is None or pr[0] != 0 or pr[2] != ["F:%016x" % w]:
-                rep["expected_bits"] = "%016x" % w
-                ck.violation("decimal literal %s evaluates wrongly" % short, "%s: %s, correctly rounded value has bits %016x" % (short, il, w), rep)
-        else:
-            if pr is None or pr[0] == 0 or T.MAL not in pr[1]:
-                ck.violation("decimal literal %s out of range accepted" % short, "%s: %s but the value rounds to infinity" % (short, il), rep)
+    def judge(cases1):
+        srcs = ["Die Kommazahl k ist %s." % s for s, _ in cases1]
+        outs = T.impl(["P " + hx(src) for src in srcs])
+        for (s, w), src, il in zip(cases1, srcs, outs):
+            pr = parse_P(il)
+            short = s if len(s) < 60 else s[:25] + "...(%d digits)" % (len(s) - 1)
+            rep = dict(source=src, source_hex=hx(src), implementation=il, how="litx: P <hex>")
+            if w is not None:
+                if pr is None or pr[0] != 0 or pr[2] != ["F:%016x" % w]:
+                    rep["expected_bits"] = "%016x" % w
+                    viol(ck, "float-value", "decimal literal %s evaluates wrongly" % short, "%s: %s, correctly rounded value has bits %016x" % (short, il, w), rep)
+            else:
+                if pr is None or pr[0] == 0 or T.MAL not in pr[1]:
+                    viol(ck, "float-range", "decimal literal %s out of range accepted" % short, "%s: %s but the value rounds to infinity" % (short, il), rep)
+    redo = []
     for bt, il in zip(batches, impl):
         pr = parse_P(il)
         if pr is not None and pr[0] == 0 and pr[2] == ["F:%016x" % w for _, w in bt]:
             continue
-        for s, w in bt:
-            judge_one(s, w)
-    for s in rej:
-        judge_one(s, None)
+        redo += bt
+    if len(redo) > 50000:      # a systematic deviation: the first batches are enough to name inputs
+        redo = redo[:50000]
+    judge(redo + [(s, None) for s in rej])
     for s, w in ok:
         if w & ((1 << 30) - 1):      # not a short dyadic value: rounding really happened
             ck.nontrivial(("float", s))
     stats["floats"] = dict(exhaustive_3_3=len(ex), random_to_12_digits=len(rnd), midpoints_and_extremes=len(hard), rejected_overflow=len(rej))
 
 
+class InfraError(Exception):
+    pass
+
+
 # ---- end to end: compiled programs ------------------------------------------------------------------
-def leg_e2e(ck, b, texts, stats):
+def leg_e2e(ck, b, texts, stats, corpus=()):
     ok, lg = b.ensure_native()
     if not ok:
         ck.violation("native-build", "kddp/runtime do not build from /repo: " + lg[-400:], dict(log=lg[-3000:]), no_input=True)
@@ -509,7 +535,7 @@ def leg_e2e(ck, b, texts, stats):
     short = [t for t in valid if len(t) <= (2 if ck.quick else 3)]
     longer = [t for t in valid if len(t) > (2 if ck.quick else 3)]
     rng.shuffle(longer)
-    pick = short + longer[:(250 if ck.quick else 4000)]
+    pick = [t for t in corpus if complete_body(t, '"') and spec_denote(t, '"') is not None] + short + longer[:(250 if ck.quick else 4000)]
     for _ in range(150 if ck.quick else 2000):
         s = "".join(rng.choice(ALPHA + ["€", "Z", " ", "\t", "\r"]) for _ in range(rng.randint(3, 12)))
         pick.append(spec_escape(s, '"'))
@@ -553,15 +579,24 @@ def leg_e2e(ck, b, texts, stats):
                 'Schreibe lz.\nSchreibe \'|\'.\nSchreibe lk.\nSchreibe \'|\'.\nSchreibe lw.\nSchreibe \'|\'.\nSchreibe lb.\nSchreibe \'|\'.\nSchreibe lt.\n')
     listwant = "3, 9223372036854775807, 7|3.25, 0.1, 100|wahr, falsch, wahr|d, \t, ä, '|a\"b, \\n, , \U0001d11e\n".encode()
 
-    def run_prog(idx_src):
+    def run_prog(idx_src, retry=True):
         idx, src = idx_src
         p = os.path.join(sd, "p%d.ddp" % idx)
-        open(p, "w", encoding="utf-8", newline="").write(src)
-        r = b.compile(p, os.path.join(sd, "p%d" % idx))
-        if r["stage"] != "ok":
-            return ("compile", r["out"][-600:])
-        rc, out, err = b.run(os.path.join(sd, "p%d" % idx))
-        return ("ran", rc, out, err)
+        try:
+            open(p, "w", encoding="utf-8", newline="").write(src)
+            r = b.compile(p, os.path.join(sd, "p%d" % idx))
+            if r["stage"] != "ok":
+                return ("compile", r["out"][-600:])
+            rc, out, err = b.run(os.path.join(sd, "p%d" % idx))
+            return ("ran", rc, out, err)
+        except OSError as e:
+            # the shared build cache of this tree was pruned by a concurrent check: rebuild once and retry
+            if retry and not os.path.exists(b.kddp):
+                log("[c19] build products vanished (%s); rebuilding" % e)
+                os.makedirs(sd, exist_ok=True)
+                if b.ensure_native()[0]:
+                    return run_prog(idx_src, retry=False)
+            raise InfraError("cannot compile/run programs: %s" % e)
 
     def prog_of(bt):
         return 'Binde "Duden/Ausgabe" ein.\n' + "\n".join(st for _, st, _, _ in bt) + "\n"
@@ -581,22 +616,96 @@ def leg_e2e(ck, b, texts, stats):
                 if k in ("text", "char") and ("\\" in desc or any(ord(c) > 127 for c in desc)):
                     ck.nontrivial(("e2e", desc))
             continue
-        # find the literal(s) of the batch that misbehave: one program each
-        singles = vlib.pmap(run_prog, [(nid + i, prog_of([it])) for i, it in enumerate(bt)])
-        nid += len(bt)
+        # find literals of the batch that misbehave by bisection (at most 3 localisations per run)
+        stats["e2e_failing_batches"] = stats.get("e2e_failing_batches", 0) + 1
+        if stats.get("e2e_localised", 0) >= 3:
+            continue
+        stats["e2e_localised"] = stats.get("e2e_localised", 0) + 1
+
+        def bad(sub):
+            nonlocal nid
+            nid += 1
+            rr = run_prog((nid, prog_of(sub)))
+            return not (rr[0] == "ran" and rr[1] == 0 and rr[2] == b"".join(w for _, _, w, _ in sub))
+        cur = list(bt)
+        while len(cur) > 1:
+            half = cur[:len(cur) // 2]
+            if bad(half):
+                cur = half
+            elif bad(cur[len(cur) // 2:]):
+                cur = cur[len(cur) // 2:]
+            else:
+                break       # only the combination fails
+        culprits = cur if len(cur) == 1 else []
+        nid += 1
+        singles = [run_prog((nid, prog_of(culprits)))] if culprits else []
+        bt = culprits if culprits else bt
         found = False
         for (k, st, w, desc), sr in zip(bt, singles):
             if sr[0] == "ran" and sr[1] == 0 and sr[2] == w:
                 continue
             found = True
+            if k == "text":
+                body = desc[1:-1]
+
+                def fails(bd):
+                    nonlocal nid
+                    nid += 1
+                    r1 = run_prog((nid, 'Binde "Duden/Ausgabe" ein.\nSchreibe den Text "%s".\n' % bd))
+                    return not (r1[0] == "ran" and r1[1] == 0 and r1[2] == spec_denote(bd, '"').encode())
+                body = shrink_units(body, fails)
+                persist("text", body)
+                nid += 1
+                st, w, desc = 'Schreibe den Text "%s".' % body, spec_denote(body, '"').encode(), '"%s"' % body
+                sr = run_prog((nid, prog_of([(k, st, w, desc)])))
             short = desc if len(desc) < 60 else desc[:30] + "...(%d chars)" % len(desc)
-            ck.violation("compiled %s literal %s prints wrongly" % (k, short),
+            viol(ck, "e2e-" + k, "compiled %s literal %s prints wrongly" % (k, short),
                          "`%s` prints %r, the written value is %r" % (st if len(st) < 200 else st[:200] + "...", sr[2] if sr[0] == "ran" else sr, w),
                          dict(source=prog_of([(k, st, w, desc)]), expected_stdout_hex=w.hex(), got=str(sr)[:600], how="Build().compile(src) + run, compare stdout"))
         if not found:
             ck.violation("compiled literals interfere", "a batch of %d Schreibe statements prints %r..., expected %r..." % (len(bt), (r[2][:80] if r[0] == "ran" else r), want[:80]),
                          dict(source=prog_of(bt), expected_stdout_hex=want.hex(), got=str(r)[:600], how="Build().compile(src) + run"))
     stats["e2e"] = dict(programs=len(batches) + 1, literals=len(items), texts=len(pick), chars=len(chars) + 7, ints=len(ints) + 1, floats=sum(1 for i in items if i[0] == "float"))
+
+
+def persist(kind, text):
+    """keep a minimised failing literal under corpus/C19 (run first by every later check)"""
+    import hashlib
+    d = os.path.join(vlib.VERIF, "corpus", PID)
+    os.makedirs(d, exist_ok=True)
+    f = os.path.join(d, hashlib.sha1((kind + "\0" + text).encode()).hexdigest()[:12] + ".json")
+    if not os.path.exists(f):
+        json.dump(dict(kind=kind, text=text), open(f, "w"), ensure_ascii=False)
+
+
+def units(body):
+    out, i = [], 0
+    while i < len(body):
+        if body[i] == "\\" and i + 1 < len(body):
+            out.append(body[i:i + 2])
+            i += 2
+        else:
+            out.append(body[i])
+            i += 1
+    return out
+
+
+def shrink_units(body, fails, budget=40):
+    """greedy removal of units (characters / escape pairs) while `fails(body)` stays true"""
+    us = units(body)
+    changed = True
+    while changed and budget > 0:
+        changed = False
+        for i in range(len(us)):
+            cand = us[:i] + us[i + 1:]
+            budget -= 1
+            if cand and fails("".join(cand)):
+                us = cand
+                changed = True
+                break
+            if budget <= 0:
+                break
+    return "".join(us)
 
 
 def run_corpus(ck, T):
@@ -625,6 +734,31 @@ def lap(what):
     _t[0] = now
 
 
+def replay_mode(ck, b, T):
+    """./check C19 --replay replay/C19_n.json : re-run the recorded input on the current tree and show both sides"""
+    j = json.load(open(ck.replay))
+    r = j.get("replay", {})
+    print("key:      ", j.get("key"))
+    print("recorded: ", r.get("implementation", r.get("got")))
+    rc = 0
+    if "source_hex" in r:
+        mode = "T" if str(r.get("how", "")).startswith("litx: T") else "P"
+        now = T.impl(["%s %s" % (mode, r["source_hex"])])[0]
+        print("now:      ", now)
+        rc = 1 if now == r.get("implementation") else 0
+    elif "source" in r and "expected_stdout_hex" in r and b.ensure_native()[0]:
+        sd = vlib.scratch()
+        p = os.path.join(sd, "replay.ddp")
+        open(p, "w", encoding="utf-8", newline="").write(r["source"])
+        c = b.compile(p, os.path.join(sd, "replay"))
+        out = b.run(os.path.join(sd, "replay")) if c["stage"] == "ok" else c
+        print("now:      ", out)
+        print("expected stdout:", bytes.fromhex(r["expected_stdout_hex"]))
+        rc = 0 if c["stage"] == "ok" and out[1] == bytes.fromhex(r["expected_stdout_hex"]) else 1
+    print("still failing" if rc else "no longer failing")
+    sys.exit(rc)
+
+
 def main():
     lap("start")
     ck = Check(PID, "proof")
@@ -636,8 +770,11 @@ def main():
         "Python str/int/float()/'%.16g' as the specification oracle (float() is correctly rounded)",
         "code generation and runtime for literals (newInt, NewFloat, NewCString, ddp_string_from_constant, Schreibe_*) are not modelled: covered by the compiled-program leg only; U+0000 inside literals is outside the alphabet (C strings)",
     ]
-    # props_audit's regex reads the header line "Axioms:" of Print Assumptions as an axiom name (vlib quirk, reported)
-    vlib.ALLOWED_AXIOMS.add("Axioms")
+    ck.assumptions += [
+        "sources are valid UTF-8 (scanner.New rejects everything else before the first token)",
+        "U+0000 inside a text literal is outside the alphabet: the constant reaches the runtime as a C string",
+        "printed Kommazahl: '%.16g' of the C library in the sandbox's C.utf8 locale (decimal point), compared with Python's '%.16g'",
+    ]
     ok_tab = regen_tables(b, ck)
     lap("tables")
     ck.coq()
@@ -652,10 +789,13 @@ def main():
         ck.broken_obligation("extracted model driver missing (make setup)", "")
         ck.finish()
     T = Tools(litx, model)
+    if ck.replay:
+        replay_mode(ck, b, T)
     stats = dict(model_mismatch=[], accepted_text=0, rejected_text=0, accepted_char=0, rejected_char=0)
 
     L = 4 if ck.quick else 5
-    texts = run_corpus(ck, T)
+    corpus = run_corpus(ck, T)
+    texts = list(corpus)
     for n in range(0, L + 1):
         texts += ["".join(p) for p in itertools.product(ALPHA, repeat=n)]
     lap("build")
@@ -672,7 +812,12 @@ def main():
     lap("ints")
     leg_floats(ck, T, stats)
     lap("floats")
-    leg_e2e(ck, b, texts, stats)
+    try:
+        leg_e2e(ck, b, texts, stats, corpus)
+    except InfraError as e:
+        # not evidence about the property: the leg is reported as not run, the verdict comes from the other legs
+        log("[c19] WARNING end-to-end leg did not complete: %s" % e)
+        stats["e2e"] = "NOT RUN: %s" % e
     lap("e2e")
 
     mm = stats.pop("model_mismatch")
@@ -682,6 +827,7 @@ def main():
                              % (k, src if len(src) < 200 else src[:200], il, ml, len(mm)), "")
     ck.cov.update(stats)
     ck.cov["model_disagreements"] = len(mm)
+    ck.cov["further_witnesses_per_class"] = dict(_seen_cls)
     ck.cov["exhaustive"] = dict(
         texts="all %d strings of length <= %d over %d symbols (z \" ' \\ a b n r t LF ä U+1D11E), as text and as character literal, scanner and parser" % (len(texts), L, len(ALPHA)),
         decimals="all %d literals with 1-3 + 1-3 digits (leading zeros included)" % stats["floats"]["exhaustive_3_3"],
